@@ -22,6 +22,7 @@ import DateutilVerif.Proofs.IsoErrors
 import DateutilVerif.Proofs.IsoTzSound
 import DateutilVerif.Proofs.IsoSound
 import DateutilVerif.Proofs.IsoGenEq
+import DateutilVerif.Proofs.IsoGenLoop
 namespace C20
 open Iso Py
 
@@ -167,6 +168,107 @@ theorem parse_isodate_scan_errors_ValueError_gen (s : Bytes) (e : PyErr)
   cases hp : parseIsodate s with
   | error e' => rw [hp] at h; cases h; exact onlyVE_parseIsodate s _ hp
   | ok p => rw [hp] at h; cases h
+
+/-- SOUNDNESS of the TRANSLATED `isoparse` (full strength) -/
+theorem isoparse_sound_gen (cfg : Option Nat) (s : Bytes) (v : Result)
+    (h : Gen.isoparse (cfg.map fun c => [c]) s = .ok v) :
+    ∃ f x, IsoSpec.WFields f x ∧ (f.time ≠ .none → (cfg = none ∨ cfg = some f.sep)) ∧
+      s = IsoSpec.render f x ∧ v = IsoSpec.denote f x := by
+  rw [IsoGen.isoparse_eq] at h; exact isoparse_sound_core cfg s v h
+
+/-- the translated `isoparse` with a configured separator accepts EXACTLY the renderings -/
+theorem isoparse_accepts_iff_gen (c : Nat) (hc : isDigit c = false) (s : Bytes) (v : Result) :
+    Gen.isoparse (some [c]) s = .ok v ↔
+      ∃ f x, IsoSpec.WFields f x ∧ f.sep = c ∧ s = IsoSpec.render f x ∧ v = IsoSpec.denote f x := by
+  have := IsoGen.isoparse_eq (some c) s
+  simp only [Option.map_some] at this
+  rw [this]; exact Iso.isoparse_accepts_iff c hc s v
+
+/-- the only exception kind of the translated `isoparse` is ValueError — in particular the loop never runs out of
+    fuel (`NotImplemented`) and no `OverflowError`/`TypeError` of the primitives escapes -/
+theorem isoparse_errors_ValueError_gen (cfg : Option Nat) (s : Bytes) (e : PyErr)
+    (h : Gen.isoparse (cfg.map fun c => [c]) s = .error e) : e = .ValueError := by
+  rw [IsoGen.isoparse_eq] at h; exact onlyVE_isoparse cfg s e h
+
+theorem sep_exact_gen (c : Nat) (s : Bytes) (v : Result) (h : Gen.isoparse (some [c]) s = .ok v) :
+    ∃ ymd rest, parseIsodate s = .ok (ymd, rest) ∧ (rest = [] ∨ ∃ r, rest = c :: r) := by
+  have := IsoGen.isoparse_eq (some c) s
+  simp only [Option.map_some] at this
+  rw [this] at h; exact sep_exact_core c s v h
+
+/-- soundness of the translated `_parse_isotime`: what it accepts is the rendering of a time form followed by an
+    offset form, and the raw components are the ones the rendering shows -/
+theorem parse_isotime_scan_sound_gen (s : Bytes) (comps : List BytesPy.Comp) (h : Gen.parseIsotime s = .ok comps) :
+    ∃ (tf : IsoSpec.TimeForm) (xt : IsoSpec.Fields) (o : IsoSpec.OffForm) (xo : IsoSpec.Fields),
+      TimeScan tf xt ∧ IsoSpec.offWF o xo = true ∧
+      s = IsoSpec.renderTime tf xt ++ IsoSpec.renderOff o xo ∧
+      comps = IsoGen.compsOf { shownComps tf xt with tz := IsoSpec.offDenote o xo } := by
+  rw [IsoGen.parseIsotime_eq] at h
+  cases hp : parseIsotime s with
+  | error e => rw [hp] at h; cases h
+  | ok c =>
+    rw [hp] at h; simp only [Except.map, Except.ok.injEq] at h
+    obtain ⟨tf, xt, o, xo, hscan, how, es, hc, _⟩ := parseIsotime_inv s c hp
+    exact ⟨tf, xt, o, xo, hscan, how, es, by rw [← h, hc]⟩
+
+theorem parse_isotime_scan_errors_ValueError_gen (s : Bytes) (e : PyErr)
+    (h : Gen.parseIsotime s = .error e) : e = .ValueError := by
+  rw [IsoGen.parseIsotime_eq] at h
+  cases hp : parseIsotime s with
+  | error e' => rw [hp] at h; cases h; exact onlyVE_parseIsotime s _ hp
+  | ok c => rw [hp] at h; cases h
+
+/-- COMPLETE soundness of the translated body of `parse_isodate` (the value is the date's ordinal) -/
+theorem parse_isodate_sound_gen (s : Bytes) (o : Int) (h : Gen.parseIsodateEntry s = .ok o) :
+    ∃ df x, s = IsoSpec.renderDate df x ∧ IsoSpec.dateWF true df x = true ∧
+      1 ≤ IsoSpec.dateOrdinal df x ∧ IsoSpec.dateOrdinal df x ≤ Cal.maxOrdinal ∧ o = IsoSpec.dateOrdinal df x := by
+  rw [IsoGen.parseIsodateEntry_eq] at h
+  cases hp : parseIsodateEntry s with
+  | error e => rw [hp] at h; cases h
+  | ok ymd =>
+    obtain ⟨y, m, d⟩ := ymd
+    rw [hp] at h; simp only [Except.map, Except.ok.injEq] at h
+    obtain ⟨df, x, es, hwf, h1, h2, he⟩ := parseIsodateEntry_sound s y m d hp
+    refine ⟨df, x, es, hwf, h1, h2, ?_⟩
+    have := (Cal.toOrdinal_fromOrdinal _ h1).1
+    rw [← he] at this; rw [← h]; exact this
+
+theorem parse_isodate_errors_ValueError_gen (s : Bytes) (e : PyErr)
+    (h : Gen.parseIsodateEntry s = .error e) : e = .ValueError := by
+  rw [IsoGen.parseIsodateEntry_eq] at h
+  cases hp : parseIsodateEntry s with
+  | error e' => rw [hp] at h; cases h; exact onlyVE_parseIsodateEntry s _ hp
+  | ok c => rw [hp] at h; cases h
+
+/-- COMPLETE soundness of the translated body of `parse_isotime` (hour 24 is returned as 0) -/
+theorem parse_isotime_sound_gen (s : Bytes) (comps : List BytesPy.Comp) (h : Gen.parseIsotimeEntry s = .ok comps) :
+    ∃ (tf : IsoSpec.TimeForm) (o : IsoSpec.OffForm) (x : IsoSpec.Fields), tf ≠ .none ∧
+      IsoSpec.timeWF tf x = true ∧ IsoSpec.offWF o x = true ∧
+      s = IsoSpec.renderTime tf x ++ IsoSpec.renderOff o x ∧
+      comps = IsoGen.compsOf
+        { h := if (IsoSpec.timeShown tf x).1 = 24 then 0 else ((IsoSpec.timeShown tf x).1 : Int),
+          m := (IsoSpec.timeShown tf x).2.1, s := (IsoSpec.timeShown tf x).2.2.1,
+          us := (IsoSpec.timeShown tf x).2.2.2, tz := IsoSpec.offDenote o x } := by
+  rw [IsoGen.parseIsotimeEntry_eq] at h
+  cases hp : parseIsotimeEntry s with
+  | error e => rw [hp] at h; cases h
+  | ok c =>
+    rw [hp] at h; simp only [Except.map, Except.ok.injEq] at h
+    obtain ⟨tf, o, x, h1, h2, h3, h4, h5⟩ := parseIsotimeEntry_sound s c hp
+    exact ⟨tf, o, x, h1, h2, h3, h4, by rw [← h, h5]⟩
+
+theorem parse_isotime_errors_ValueError_gen (s : Bytes) (e : PyErr)
+    (h : Gen.parseIsotimeEntry s = .error e) : e = .ValueError := by
+  rw [IsoGen.parseIsotimeEntry_eq] at h
+  cases hp : parseIsotimeEntry s with
+  | error e' => rw [hp] at h; cases h; exact onlyVE_parseIsotimeEntry s _ hp
+  | ok c => rw [hp] at h; cases h
+
+/-- the translated body of `parse_tzstr` is the translated `_parse_tzstr` (sound and ValueError-only, above) -/
+theorem parse_tzstr_entry_sound_gen (s : Bytes) (z : Bool) (v : Off) (h : Gen.parseTzstrEntry s z = .ok v) :
+    ∃ o x, o ≠ IsoSpec.OffForm.naive ∧ IsoSpec.offWF o x = true ∧ s = IsoSpec.renderOff o x ∧
+      v = offValue z o x := by
+  rw [IsoGen.parseTzstrEntry_eq] at h; exact parseTzstr_sound s z v h
 
 /-! non-vacuity -/
 example : isoparse none [50,48,49,52,45,48,49,45,48,49,84,50,53] = .error .ValueError := by decide +kernel
